@@ -48,6 +48,7 @@ struct Acc {
     outcomes: BTreeSet<String>,
     call_patterns: BTreeSet<String>,
     out_of_order_execs: u64,
+    backpressure_execs: u64,
     peaks: BTreeSet<u32>,
     spawned: BTreeSet<u32>,
     completed: u64,
@@ -107,6 +108,9 @@ fn judge(prop: &str, s: &Scenario, obs: &Obs, end: &EndKind, cens: (u32, u32, u3
     acc.spawned.insert(spawned);
     if cv[cov::Counter::MtOutOfOrder as usize] > 0 {
         acc.out_of_order_execs += 1;
+    }
+    if cv[cov::Counter::MtBackpressureWait as usize] > 0 {
+        acc.backpressure_execs += 1;
     }
     acc.call_patterns.insert(obs.calls.join(","));
     let outcome = match &obs.result {
@@ -394,8 +398,10 @@ fn run(cli: &Cli, rep: &Report) {
                 ("transitions", st.transitions),
                 ("executions_failed", st.failed),
                 ("executions_with_out_of_order_results", acc.out_of_order_execs),
+                ("executions_in_backpressure_wait", acc.backpressure_execs),
                 ("scenarios", 1),
             ]);
+            rep_arc.add(&format!("backpressure_wait.{}", scenario_class(scn)), acc.backpressure_execs);
             rep_arc.max("max.schedule_depth", st.max_depth as u64);
             rep_arc.max("max.enabled_tasks", st.max_enabled as u64);
             rep_arc.max("max.peak_workers", acc.peaks.iter().max().copied().unwrap_or(0) as u64);
@@ -420,7 +426,7 @@ fn run(cli: &Cli, rep: &Report) {
                     sdesc.clone(),
                     json!({"bound": bound, "executions": st.executions, "by_preemptions": st.by_preemptions, "failed": st.failed,
                            "max_depth": st.max_depth, "distinct_outcomes": acc.outcomes.len(), "distinct_call_patterns": acc.call_patterns.len(),
-                           "out_of_order_execs": acc.out_of_order_execs, "peaks": acc.peaks, "spawned": acc.spawned}),
+                           "out_of_order_execs": acc.out_of_order_execs, "backpressure_execs": acc.backpressure_execs, "peaks": acc.peaks, "spawned": acc.spawned}),
                 );
             }
             // non-vacuity per scenario: schedules must actually differ
@@ -440,6 +446,18 @@ fn run(cli: &Cli, rep: &Report) {
     if cli.only.is_none() {
         if t.executions < 100 {
             rep.machinery_error(format!("vacuous: only {} executions explored", t.executions));
+        }
+        // every MT object stops dispatching while four units are queued; a menu in which no execution ever parks the
+        // caller in that wait leaves it unexplored (this is how seeded change H10 was missed at first)
+        let classes: &[&str] = match prop.as_str() {
+            "C08" | "C09" | "C10" => &["lzma2-reader-mt", "lzip-reader-mt", "lzma2-writer-mt", "lzip-writer-mt"],
+            "C13" => &["lzma2-writer-mt", "lzip-writer-mt"],
+            _ => &[],
+        };
+        for c in classes {
+            if rep.get(&format!("backpressure_wait.{c}")) == 0 {
+                rep.machinery_error(format!("vacuous: no execution of a {c} scenario reached the back-pressure wait"));
+            }
         }
         if matches!(prop.as_str(), "C08" | "C13") && rep.get("executions_with_out_of_order_results") == 0 {
             rep.machinery_error("vacuous: no execution delivered results out of order");
